@@ -6,7 +6,7 @@ EXPLANATION = 'Mixed. P: cencoding._assemble_objects from the .pyx: the level lo
 
 def p_parts():
     from ._generic import optional_parts
-    return optional_parts(("_assembly", "p_assembly"), ("_schematree", "p_schematree"), ("_readoptions", "p_readoptions"))
+    return optional_parts(("_assembly", "p_assembly"), ("_schematree", "p_schematree"), ("_readoptions", "p_readoptions"), ("_pages", "p_schema_element"))
 
 
 def run(ctx):
